@@ -55,7 +55,14 @@ impl Default for Opts {
     }
 }
 impl Opts {
+    pub fn is_default(&self) -> bool {
+        matches!(self.size, SizeOpt::Header) && self.memlimit.is_none() && !self.allow_incomplete
+    }
     pub fn to_lib(&self) -> Options {
+        if self.is_default() {
+            // what a caller who does not set anything gets
+            return Options::default();
+        }
         Options {
             unpacked_size: match self.size {
                 SizeOpt::Header => UnpackedSize::ReadFromHeader,
@@ -101,6 +108,10 @@ pub struct Rd {
     /// wrap the source in std::io::BufReader with this capacity (0 = off)
     #[serde(default)]
     pub bufreader: usize,
+    /// kind of the injected failure: 0 = ErrorKind::Other, 1 = Interrupted, 2 = WouldBlock, 3 = TimedOut (transient kinds: a caller
+    /// may legitimately retry them, so only "Err, or the fault-free result" can be demanded)
+    #[serde(default)]
+    pub fail_kind: u8,
 }
 impl Rd {
     pub fn is_plain(&self) -> bool {
@@ -114,6 +125,7 @@ pub struct CutReader<'a> {
     cuts: Vec<usize>,
     period: usize,
     fail_at: Option<usize>,
+    fail_kind: u8,
     pub calls: usize,
     pub fault_hit: bool,
 }
@@ -121,7 +133,7 @@ impl<'a> CutReader<'a> {
     pub fn new(data: &'a [u8], rd: &Rd) -> Self {
         let mut cuts = rd.cuts.clone();
         cuts.sort_unstable();
-        CutReader { data, pos: 0, cuts, period: rd.period, fail_at: rd.fail_at, calls: 0, fault_hit: false }
+        CutReader { data, pos: 0, cuts, period: rd.period, fail_at: rd.fail_at, fail_kind: rd.fail_kind, calls: 0, fault_hit: false }
     }
     fn window_end(&self) -> usize {
         let mut end = self.data.len();
@@ -143,7 +155,13 @@ impl<'a> CutReader<'a> {
         self.calls += 1;
         if self.fail_at == Some(k) {
             self.fault_hit = true;
-            return Err(io::Error::new(io::ErrorKind::Other, "injected read fault"));
+            let kind = match self.fail_kind {
+                1 => io::ErrorKind::Interrupted,
+                2 => io::ErrorKind::WouldBlock,
+                3 => io::ErrorKind::TimedOut,
+                _ => io::ErrorKind::Other,
+            };
+            return Err(io::Error::new(kind, "injected read fault"));
         }
         Ok(())
     }
@@ -282,6 +300,8 @@ pub enum SOp {
     Flush,
     GetOutput,
     Finish,
+    /// io::Write::write_all as implemented for (or inherited by) Stream - the method callers and io::copy use
+    StdWriteAll(Hex),
 }
 #[derive(Clone, Debug, PartialEq, Eq, Hash, Serialize, Deserialize)]
 pub enum RawOp {
@@ -310,6 +330,9 @@ pub enum Case {
     RawLzma2 { ops: Vec<RawOp> },
     Stream { opts: Opts, sk: Sk, ops: Vec<SOp> },
     Window { circular: bool, dict: usize, memlimit: u64, ops: Vec<WOp> },
+    /// the documented way to use the raw decoder on a .lzma file: LzmaParams::read_header on the whole input, then
+    /// LzmaDecoder::new(params, memlimit).decompress on what the header parser left in the reader
+    RawLzmaHdr { opts: Opts, input: Hex },
 }
 
 // ------------------------------------------------------------------ observations
@@ -458,6 +481,8 @@ pub fn dec_plain(fmt: Fmt, opts: &Opts, input: &[u8]) -> (V, Vec<u8>, usize) {
     let mut rdr: &[u8] = input;
     let lib = opts.to_lib();
     let (v, _) = guard(|| match fmt {
+        // default options: the entry point without an options argument (half of the calls, by input length)
+        Fmt::Lzma if opts.is_default() && input.len() % 2 == 0 => lzma_rs::lzma_decompress(&mut rdr, &mut out),
         Fmt::Lzma => lzma_rs::lzma_decompress_with_options(&mut rdr, &mut out, &lib),
         Fmt::Lzma2 => lzma_rs::lzma2_decompress(&mut rdr, &mut out),
         Fmt::Xz => lzma_rs::xz_decompress(&mut rdr, &mut out),
@@ -469,6 +494,9 @@ pub fn enc_plain(fmt: Fmt, size: EncSize, input: &[u8]) -> (V, Vec<u8>) {
     let mut out = Vec::new();
     let mut rdr: &[u8] = input;
     let (v, _) = guard(|| match fmt {
+        // WriteToHeader(None) is the documented default: the entry point without options / Options::default()
+        Fmt::Lzma if size == EncSize::HeaderNone && input.len() % 3 == 0 => lzma_rs::lzma_compress(&mut rdr, &mut out),
+        Fmt::Lzma if size == EncSize::HeaderNone && input.len() % 3 == 1 => lzma_rs::lzma_compress_with_options(&mut rdr, &mut out, &lzma_rs::compress::Options::default()),
         Fmt::Lzma => {
             let o = lzma_rs::compress::Options {
                 unpacked_size: match size {
@@ -493,7 +521,8 @@ pub struct StreamH {
 impl StreamH {
     pub fn new(opts: &Opts, sk: &Sk) -> Self {
         let sink = TestSink::new(sk);
-        let s = Stream::new_with_options(&opts.to_lib(), sink.clone());
+        // default options and a plain sink: the constructor without options
+        let s = if opts.is_default() && sk.is_plain() { Stream::new(sink.clone()) } else { Stream::new_with_options(&opts.to_lib(), sink.clone()) };
         StreamH { s: Some(s), sink }
     }
     pub fn sink_len(&self) -> usize {
@@ -529,6 +558,11 @@ impl StreamH {
             SOp::Flush => {
                 let s = self.s.as_mut().expect("stream already finished");
                 let (v, _) = guard(|| s.flush());
+                (v, None)
+            }
+            SOp::StdWriteAll(d) => {
+                let s = self.s.as_mut().expect("stream already finished");
+                let (v, _) = guard(|| s.write_all(&d.0));
                 (v, None)
             }
             SOp::GetOutput => {
@@ -800,6 +834,8 @@ fn run_case_inner(c: &Case) -> Obs {
             let mut sink = TestSink::new(sk);
             let mut cr = CutReader::new(&input.0, rd);
             let (v, _) = guard(|| match fmt {
+                Fmt::Lzma if *size == EncSize::HeaderNone && input.0.len() % 3 == 0 => lzma_rs::lzma_compress(&mut cr, &mut sink),
+                Fmt::Lzma if *size == EncSize::HeaderNone && input.0.len() % 3 == 1 => lzma_rs::lzma_compress_with_options(&mut cr, &mut sink, &lzma_rs::compress::Options::default()),
                 Fmt::Lzma => {
                     let eo = lzma_rs::compress::Options {
                         unpacked_size: match size {
@@ -832,6 +868,19 @@ fn run_case_inner(c: &Case) -> Obs {
         Case::RawLzma2 { ops } => {
             let mut h = RawH::new_lzma2();
             run_raw(&mut h, ops, &mut o);
+        }
+        Case::RawLzmaHdr { opts, input } => {
+            let mut rdr: &[u8] = &input.0;
+            let mut out = Vec::new();
+            let lib = opts.to_lib();
+            let (v, _) = guard(|| -> lzma_rs::error::Result<()> {
+                let params = LzmaParams::read_header(&mut rdr, &lib)?;
+                let mut d = LzmaDecoder::new(params, opts.memlimit.map(|m| m as usize))?;
+                d.decompress(&mut rdr, &mut out)
+            });
+            o.v = v;
+            o.consumed = input.0.len() - rdr.len();
+            o.out = Hex(out);
         }
         Case::Stream { opts, sk, ops } => {
             let mut h = StreamH::new(opts, sk);
